@@ -5,21 +5,21 @@ package pkgload
 // Contracts for package pkgload (comment-only; checked by /verif/engine).
 
 // ---- C16: packages are loaded with -tags <buildTags> iff build tags are configured ----
-//@ func PackageLoader.load
+//@ func PackageLoader.load(g; workDir, buildTags, paths)
 //@   props C16
 //@   propagates
 //@   requires@C13 g != nil && g.lookup != nil
 //@   at@C16 call packages.Load#1 assert arg0.Dir == workDir && ite(buildTags != "", len(arg0.BuildFlags) == 2 && arg0.BuildFlags[0] == "-tags" && arg0.BuildFlags[1] == buildTags, len(arg0.BuildFlags) == 0)
 
-//@ func New
+//@ func New(workDir, buildTags, paths)
 //@   props C13
 
-//@ func ParseMethodString
+//@ func ParseMethodString(sourcePackage, fullMethod)
 //@   props C13
 
 // ---- C14: the context parameters of a function are exactly the `context NAME` settings of that
 // ---- function's own doc comment (nothing leaks from another declaration of the file or package) ----
-//@ func PackageLoader.localConfig
+//@ func PackageLoader.localConfig(g; pkg, name)
 //@   props C14 C19 C06
 //@   loop 3 invariant forall k string :: has(contexts, k) ==> parse.DeclaresContext(lines, k)
 //@   loop 3 invariant forall j int :: 0 <= j && j < idx && parse.IsContextLine(lines[j]) ==> has(contexts, parse.ContextName(lines[j]))
@@ -35,33 +35,33 @@ package pkgload
 
 // ---- C14: the per-use parse options reach method.Parse unchanged, together with the local options of
 // ---- exactly the function that is being parsed; nothing but the loader's own cache is written ----
-//@ func PackageLoader.getOneParsed
+//@ func PackageLoader.getOneParsed(g; pkgName, name, opts)
 //@   props C14
 //@   propagates
 //@   assigns map(g.locals)
 //@   at@C14 call method.Parse#1 assert arg0 == obj && arg1 == opts
 //@   at@C14 call g.localConfig#1 assert arg0 == pkg && arg1 == name
 
-//@ func PackageLoader.GetOne
+//@ func PackageLoader.GetOne(g; sourcePackage, fullMethod, opts)
 //@   props C14
 //@   propagates
 //@   assigns map(g.locals)
 //@   at@C14 call g.getOneParsed#1 assert arg2 == opts
 
-//@ func PackageLoader.GetOneRaw
+//@ func PackageLoader.GetOneRaw(g; pkgName, name)
 //@   props C14
 //@   assigns nothing
 //@   ensures err == nil ==> result1 != nil
 
-//@ func PackageLoader.getPkg
+//@ func PackageLoader.getPkg(g; pkgName)
 //@   assigns nothing
 
-//@ func PackageLoader.GetUncheckedPkg
+//@ func PackageLoader.GetUncheckedPkg(g; pkgName)
 //@   pure
 
 // C06/C14: for a pattern, every matching function is parsed with the per-use options and with the local
 // settings of THAT function (looked up under the name the object was looked up with)
-//@ func PackageLoader.GetMatching
+//@ func PackageLoader.GetMatching(g; cwd, fullMethod, opts)
 //@   props C06 C14
 //@   errdrop method.Parse#1 documented behaviour of patterns: functions that match the name pattern but are no conversion functions are skipped (an empty result is an error)
 //@   assigns map(g.locals)
